@@ -32,6 +32,9 @@ Inductive case :=
 (** An exporter older than its MaxElapsedTime exports twice (idle for MaxElapsedTime + margin before each);
     every export is answered retry-ably once, then accepted. *)
 | CAged (exporter : N) (max_ns : Z) (attempts1 : nat) (err1 : N) (attempts2 : nat) (err2 : N)
+(** One export answered OK / 200 with this partial_success; run with nothing else in flight, [handled] = partial-success
+    reports the error handler received during it. *)
+| CPartial (exporter : N) (p : partial_info) (err handled : N)
 | CBurst (exporter : N) (gzip : bool) (attempts : nat) (decoded : list N) (own : list bool) (err handled : N).
 
 Definition flag (b : bool) (code : N) : list N := if b then [] else [code].
@@ -98,6 +101,11 @@ Definition check_case (c : case) : list N :=
       flag (Nat.eqb (Types.attempts m) attempts1 && (class_of_result (res m) =? err1)%N &&
             Nat.eqb (Types.attempts m) attempts2 && (class_of_result (res m) =? err2)%N) V_MISMATCH ++
       flag (aged_ok attempts1 err1 attempts2 err2) V_SPECFAIL
+  | CPartial exporter p err handled =>
+      let o := retry_run (fun _ => 0) (fun _ => 0) (fun _ => 0) (fun _ _ => false)
+                         {| Model.enabled := true; max_elapsed := 0 |} [OSuccess (reports p)] in
+      flag ((class_of_result (res o) =? err)%N && (N.of_nat (Types.handled o) =? handled)%N) V_MISMATCH ++
+      flag (partial_ok p err handled) V_SPECFAIL
   | CBurst exporter gzip attempts decoded own err handled =>
       let m := model_run true 0 None [RespHttp 503 None false; RespHttp 200 None false] in
       flag (Nat.eqb (Types.attempts m) attempts && (class_of_result (res m) =? err)%N &&
